@@ -67,6 +67,10 @@ add("C13", "runtime monitoring: (a) rewrite equivalence judged through the lock-
     "(a) Each rewrite (copy, unwrap_nodes, group_one_qubit_gates, remove_identity, assign_noise with an empty map) of generated programs is compiled under forced outcomes by both backends and compared with the original, whose own compile is judged against the reference; repeated compiles must agree. (b) Histories of 5-25 calls over {compile with both backends / noise on-off / initial states, metric evaluation, TimeReversedSolver on targets in all three representations, assign_noise, MonteCarloNoise, compare, export, rewrites on copies} with fingerprints (operations, labels, wrapper contents, attached noise; denoted state of targets and initial states; noise maps) of every pool object after every call.",
     TRUST + "Compiler objects are configuration and are not fingerprinted.", "DESIGN.md section 5, C13")
 
+add("C15", "runtime monitoring: boundary monitors on every comparison / de-duplication entry point over generated (circuit, perturbation) pairs and lists, judged by an independent behavioural-equivalence oracle (all measurement branches on several probe inputs, register renamings enumerated for the isomorphism method)",
+    "Pairs (c, perturbed c) - swapped control/target, gate moved to another same-type register or across a neighbour, wrapped/unwrapped, identities, registers exchanged, classical-control direction flipped, replaced gates, independent circuits - go through compare with methods direct, is_isomorphic and (small circuits) GED; every 'equal' answer is checked against the oracle, plus reflexivity on copies, symmetry and insensitivity to wrapping/identities; remove_redundant_circuits and CircuitStorage must only drop circuits that are equivalent to one they keep.",
+    TRUST + "Equivalence is decided on three probe inputs (can hide, never fake, a violation).", "DESIGN.md section 5, C15")
+
 NOT_YET = {
 }
 
